@@ -126,10 +126,18 @@ class World:
         from sym_metanet import Network
         f = Network()
         f._graph = self.net._graph
-        return {k: self.show_lookup(k, getattr(f, k)) for k in KEYS}
+        return {k: self.safe_lookup(f, k) for k in KEYS}
+
+    def safe_lookup(self, net, k):
+        """a look-up may itself raise once the graph holds something that is no element (reported by the C09
+        oracle); that must not stop the run"""
+        try:
+            return self.show_lookup(k, getattr(net, k))
+        except Exception as ex:
+            return f"<raised {type(ex).__name__}>"
 
     def current_lookups(self):
-        return {k: self.show_lookup(k, getattr(self.net, k)) for k in KEYS}
+        return {k: self.safe_lookup(self.net, k) for k in KEYS}
 
 
 # ---------------------------------------------------------------------------
